@@ -866,6 +866,13 @@ def c04_worker(job):
         if twins:
             out['stats']['noncoding_twin_inputs'] = 1
             out['stats']['noncoding_twins'] = len(twins)
+        if rng.random() < 0.5:
+            # mRNA_start_NF WITHOUT cds_start_NF: the CDS start is known, the pool keeps the
+            # Met-removed N-terminal peptides of these proteins
+            with gen_ref.quiet():
+                tagged = gen_ref.tag_transcripts(case, rng, 'mRNA_start_NF', 0.6)
+            if tagged:
+                out['stats']['mrna_start_nf_only_transcripts'] = len(tagged)
         if not case.gvfs:
             out['stats']['empty'] = 1
             return out
@@ -913,6 +920,32 @@ def c04_worker(job):
                                                      canon_model=canon_model)[:3]:
                         out['violations'].append((f'callVariant --threads {th}: {v}',
                                                   dict(d2, kind='hygiene')))
+        # (c) CANONICAL COLLISIONS through proteome entries WITHOUT an annotated transcript (a proteome
+        # FASTA is not a subset of the GTF): a few reported peptides are made canonical by such entries
+        # and must vanish from the next run
+        if run.status == 'ok' and len(run.fasta) >= 2 and rng.random() < 0.6:
+            picks = rng.sample(sorted(sq for sq in run.fasta if 'X' not in sq and '*' not in sq),
+                               min(3, len(run.fasta)))
+            prot_orig = open(case.proteome).read()
+            try:
+                with open(case.proteome, 'at') as fh:
+                    for n_, q in enumerate(picks):
+                        tail = q if q[-1] in 'KR' or enzyme != 'trypsin' else q + 'K'
+                        fh.write(f'>COLLP{n_}|COLLT{n_}|COLLG{n_}|XXX\nMAGGSK{tail}AAGGSAAGGSR\n')
+                canon5 = pipe.canonical_pool(case, **kw)
+                canon_model5 = pipe.lean_canonical_pool(case, **kw)
+                run5 = gen_ref.run_call_variant(case, tag='cvcol', **kw)
+                out['stats']['canonical_collision_runs'] = 1
+                d5 = dict(desc, kind='hygiene', made_canonical=picks)
+                if run5.status == 'ok':
+                    hit = [q for q in picks if canon_model5 is not None and q in canon_model5]
+                    out['stats']['canonical_collisions'] = out['stats'].get('canonical_collisions', 0) + len(hit)
+                    for v in pipe.hygiene_violations(run5, canon5, limits, canon_model=canon_model5)[:3]:
+                        out['violations'].append((f'callVariant after proteome entries without an annotated '
+                                                  f'transcript made {picks} canonical: {v}', d5))
+            finally:
+                with open(case.proteome, 'wt') as fh:
+                    fh.write(prot_orig)
         # (a) a FRACTIONAL mass limit just above a reported peptide: m < min_mw < ceil(m) — the
         # peptide must go, and nothing lighter than the limit may stay
         if run.status == 'ok' and run.fasta and rng.random() < 0.6:
